@@ -5,6 +5,20 @@
 // Stub: `Wire`, an ISocketStream defined here.  Input side: serves the byte string W; the i-th recv() hands over a symbolic number
 // 1..KFRAG of bytes (never more than asked or left), 0 at end of stream; read() is the fully-reading variant (returns
 // min(count, bytes left), as ISocketStream::read does by looping).  Output side: records every byte written.
+// Entry points (see jobs.py for the bounds of each job):
+//   harness_chunked_exact      oracle B: chunked coding of a symbolic payload is read back exactly (modes: ALLPARTIAL, ONESHOT,
+//                              TERMINAL; TRUNC = message cut short: prefix only, never complete)
+//   harness_chunked_after_end  lemma: a finished chunk reader returns 0 for ever and touches nothing
+//   harness_chunked_any        oracles A/D: arbitrary bytes; memory safety, termination, delivered bytes come from the message;
+//                              with TWO_RUNS the canonical delivery and a symbolic fragmentation must agree
+//   harness_length_exact       oracle B for Content-Length / close-delimited bodies (DO_CLOSE: close() after partial reads)
+//   harness_chunked_write      oracle C: writer emits the reference coding; ROUNDTRIP: the reader returns the payload from it
+//   harness_length_write       oracle C for BodyWriteStream / BodyReadStream
+// Fragmentation independence for well-formed messages follows from exactness: every split, fragmentation and read-size
+// sequence inside the bound yields the one reference payload.
+// Modelling notes learned the hard way: arrays written at a symbolic index (recorded output, collected bytes) are separate static
+// arrays - a symbolic-offset store into an object that also holds vtable pointers makes every later virtual call symbolic; all
+// nondet draws happen up front (fragment sizes, read sizes), not inside the stub.
 #include "verif_h.h"
 #include "nolog.h"
 #include <stdio.h>
